@@ -32,6 +32,10 @@ def classify(q, ref, obs, input_value=None, extra=None):
 
 
 def check(col, q, input_value=None, extra=None):
+    if "cmut" in q:
+        # 'cmut' changes a variable VALUE in place through context.vars (it exists for C10): whether such a change is carried to the
+        # right is not specified by C01 (the library carries it for volatile pipelines only) - left out of the comparison
+        return None, None
     ref = M.Sem(q, input_value=input_value, extra=extra)
     obs = M.run(q, input_value=input_value, extra=extra)
     col.evaluations += 1
